@@ -162,7 +162,11 @@ CLAIMS = {
                      "(TokIR/Consumed.v, Inst/InstConsumed.v: C04_html_feed_done_means_all_input_consumed_unconditional, "
                      "C04_html_feed_loop_..._unconditional, C04_xml_feed_done_means_all_input_consumed, C04_xml_feed_loop_done_...; "
                      "only table condition: no step arm ends in the Eof terminator, decided on both regenerated tables). "
-                     "The single-EOF clause stays with the harness oracles. Tree builders, stack depth and "
+                     "ONE EOF, LAST: whenever Tokenizer::end answers normally the newest token delivered is the EOF token "
+                     "(C04_html_end_delivers_eof_last, C04_xml_end_delivers_eof_last: any machine, fuel and sink; EOF arms never read - "
+                     "eof_ok on the regenerated tables - so they answer Done only through the Eof terminator). That no EOF token is "
+                     "delivered BEFORE end() (step arms have no Eof terminator, but the emit sites of the interpreter are not yet "
+                     "covered by a frame lemma) stays with the single-EOF oracle of the harness. Tree builders, stack depth and "
                      "time are covered by the harness only (panic/abort/hang watch, queue-empty and single-EOF oracles, deep nesting).",
                 note=TOK_NOTE, tech="reflective Coq checks (EOF rank, char-ref states) + Coq termination proof of the tokenizer interpreter with explicit fuel bound (potential function, rank check on the regenerated table) + totality oracle incl. pathological inputs"),
     "C08": dict(cat="proof", ref="DESIGN.md section 5 C08",
